@@ -135,12 +135,22 @@ func ridOf(resp *cache.HTTPResponse) int {
 	if err != nil {
 		return -1
 	}
+	// every response made by mkResp also carries an empty-valued and a multi-valued header: a response
+	// that comes back without them (e.g. after a store round trip) is reported as a different response
+	if e, ok := resp.Header["X-Empty"]; !ok || len(e) != 1 || e[0] != "" {
+		return 900000 + n
+	}
+	if m := resp.Header["X-Multi"]; len(m) != 2 || m[0] != "a" || m[1] != "" {
+		return 900000 + n
+	}
 	return n
 }
 
 func mkResp(rid int) *cache.HTTPResponse {
 	h := http.Header{}
 	h.Set("X-Rid", strconv.Itoa(rid))
+	h["X-Empty"] = []string{""}
+	h["X-Multi"] = []string{"a", ""}
 	return &cache.HTTPResponse{StatusCode: 200, Header: h, RawBody: []byte(fmt.Sprintf("r%d", rid))}
 }
 
@@ -151,6 +161,10 @@ func mkRespKind(rid int, kind int) *cache.HTTPResponse {
 	case 1: // compressible text: gzip + br variants are produced when stored
 		r.Header.Set("Content-Type", "text/html")
 		r.RawBody = []byte(strings.Repeat("hello pike ", 8))
+	case 3: // every response of this kind carries the same strong validator (an unchanged entity across refetch epochs)
+		r.Header.Set("Etag", "\"unchanged\"")
+		r.Header.Set("Content-Type", "text/html")
+		r.RawBody = []byte(strings.Repeat("same entity ", 8))
 	case 2: // labelled gzip but not a gzip stream, compressible type: Compress() fails when stored
 		r.Header.Set("Content-Type", "text/html")
 		r.RawBody = nil
@@ -331,6 +345,7 @@ func runCase(t *testing.T, rnd *hx.Rand, caseNo int, nops int, withStore bool, i
 	name := fmt.Sprintf("c%d", caseNo)
 	w := &world{key: []byte("GET example.com http://example.com/res?x=1"), hasStore: withStore, storeURL: fmt.Sprintf("fake://%s", name)}
 	var frames []string
+	var implViolations []map[string]interface{}
 	var repFrames []interface{}
 	var opsJSON []op
 	var t0ms int64
@@ -410,11 +425,11 @@ func runCase(t *testing.T, rnd *hx.Rand, caseNo int, nops int, withStore bool, i
 		genOutcome := func() outcome {
 			switch rnd.Intn(10) {
 			case 0, 1, 2, 3, 4:
-				o := outcome{Kind: "cacheable", TTL: []int{1, 2, 3, 5}[rnd.Intn(4)], RID: nextRID, Body: []int{0, 0, 1, 2}[rnd.Intn(4)]}
+				o := outcome{Kind: "cacheable", TTL: []int{1, 2, 3, 5}[rnd.Intn(4)], RID: nextRID, Body: []int{0, 0, 1, 2, 3, 3}[rnd.Intn(6)]}
 				nextRID++
 				return o
 			case 5, 6:
-				o := outcome{Kind: "uncacheable", RID: nextRID, Body: []int{0, 1, 2}[rnd.Intn(3)]}
+				o := outcome{Kind: "uncacheable", RID: nextRID, Body: []int{0, 1, 2, 3}[rnd.Intn(4)]}
 				nextRID++
 				return o
 			case 7:
@@ -456,6 +471,40 @@ func runCase(t *testing.T, rnd *hx.Rand, caseNo int, nops int, withStore bool, i
 				time.Sleep(time.Duration(ms) * time.Millisecond)
 				record(op{Kind: "tick", Ms: ms}, fmt.Sprintf("(OpTick %d)", ms))
 				dist["tick"]++
+			case x < 81:
+				// purges that must not touch this key in this cache: a cache name that does not exist, the same
+				// key in a neighbouring cache, another key in this cache (the model sees a tick of 0 ms)
+				resident := func() int {
+					n := 0
+					for _, l := range cache.GetDispatcher(name).VerifResident() {
+						n += l
+					}
+					return n
+				}
+				stored := func() string {
+					if !withStore {
+						return ""
+					}
+					w.fs.mu.Lock()
+					defer w.fs.mu.Unlock()
+					return string(w.fs.data[string(w.key)])
+				}
+				r0, s0 := resident(), stored()
+				variant := []string{"absent-cache", "neighbour-cache", "other-key"}[rnd.Intn(3)]
+				switch variant {
+				case "absent-cache":
+					cache.RemoveHTTPCache("no-such-cache", w.key)
+				case "neighbour-cache":
+					cache.RemoveHTTPCache(name+"-before", w.key)
+				default:
+					cache.RemoveHTTPCache(name, []byte("GET example.com http://example.com/never-requested"))
+				}
+				if r1, s1 := resident(), stored(); r1 != r0 || s1 != s0 {
+					implViolations = append(implViolations, map[string]interface{}{"property": "C18", "kind": "purge-elsewhere-touched-this-key", "variant": variant,
+						"resident_before": r0, "resident_after": r1, "store_record_changed": s1 != s0, "ops_before": len(opsJSON)})
+				}
+				record(op{Kind: "purge-elsewhere:" + variant}, "(OpTick 0)")
+				dist["purge-elsewhere"]++
 			case x < 84:
 				delOK := !rnd.Chance(15) || !withStore
 				if withStore {
@@ -516,6 +565,9 @@ func runCase(t *testing.T, rnd *hx.Rand, caseNo int, nops int, withStore bool, i
 	}
 	term := fmt.Sprintf("{| fc_t0 := %s; fc_hfp := %s; fc_store := %s; fc_frames := %s |}", hx.Z(t0ms), hx.Z(int64(hfp)), hx.Bool(withStore), hx.List(frames))
 	rep := map[string]interface{}{"hit_for_pass": hfpCfg, "with_store": withStore, "frames": repFrames}
+	if len(implViolations) > 0 {
+		rep["impl_violations"] = implViolations
+	}
 	return term, rep, dist
 }
 
@@ -524,6 +576,75 @@ func envInt(name string, def int) int {
 		return v
 	}
 	return def
+}
+
+// storeCannotOpen: caches whose persistent store cannot be opened (path below a regular file; a badger
+// directory already locked by another cache under a differently spelled URL) must still serve from
+// memory: miss -> fill -> hit -> purge -> miss, without a panic or a hang.
+func storeCannotOpen(sum *hx.Summary) {
+	dir, _ := os.MkdirTemp("", "pikeverif-badger-")
+	defer os.RemoveAll(dir)
+	file := filepath.Join(dir, "plainfile")
+	_ = os.WriteFile(file, []byte("x"), 0o644)
+	scenarios := []struct {
+		what string
+		cfg  []config.CacheConfig
+		name string
+	}{
+		{"store path below a regular file", []config.CacheConfig{{Name: "so1", Size: 16, HitForPass: "5m", Store: "badger://" + file + "/sub"}}, "so1"},
+		{"badger directory locked by another cache (same directory, two URL spellings)", []config.CacheConfig{
+			{Name: "so2", Size: 16, HitForPass: "5m", Store: "badger://" + dir + "/db"},
+			{Name: "so3", Size: 16, HitForPass: "5m", Store: "badger://" + dir + "/db/"}}, "so3"},
+	}
+	for _, sc := range scenarios {
+		sum.Count("store-cannot-open-scenario")
+		steps := make(chan string, 8)
+		go func() {
+			defer func() {
+				if r := recover(); r != nil {
+					steps <- fmt.Sprintf("panic: %v", r)
+				}
+			}()
+			cache.ResetDispatchers(sc.cfg)
+			s := server.NewServer(server.ServerOption{Cache: sc.name})
+			handler := server.NewCache(s)
+			do := func() string {
+				req := httptest.NewRequest("GET", "http://so.example/x", nil)
+				c := elton.NewContext(httptest.NewRecorder(), req)
+				c.Next = func() error {
+					server.VerifSetHTTPResp(c, mkResp(1))
+					server.VerifSetHTTPCacheMaxAge(c, 60)
+					return nil
+				}
+				if err := handler(c); err != nil {
+					return "error: " + err.Error()
+				}
+				return server.VerifGetCacheStatus(c).String()
+			}
+			for _, want := range []string{"fetching", "hit"} {
+				if got := do(); got != want {
+					steps <- fmt.Sprintf("request answered %q, expected %q", got, want)
+					return
+				}
+			}
+			cache.RemoveHTTPCache(sc.name, []byte("GET so.example http://so.example/x"))
+			if got := do(); got != "fetching" {
+				steps <- fmt.Sprintf("after the purge the request answered %q, expected fetching", got)
+				return
+			}
+			steps <- "ok"
+		}()
+		res := ""
+		select {
+		case res = <-steps:
+		case <-time.After(8 * time.Second):
+			res = "hang: a request never returned"
+		}
+		if res != "ok" {
+			sum.ImplViolations = append(sum.ImplViolations, map[string]interface{}{"property": "C10", "kind": "store-cannot-open", "scenario": sc.what, "what": res})
+		}
+		cache.ResetDispatchers(nil)
+	}
 }
 
 // TestFlight is the `flight` family entry point.
@@ -536,15 +657,23 @@ func TestFlight(t *testing.T) {
 	n := envInt("PV_N", 50)
 	rnd := hx.NewRand(seed)
 	sum := hx.NewSummary("flight", seed)
-	sum.Rule = "one case = one history of 30-45 ops on one cache key through the real cache middleware (server.NewCache over a real size-8 dispatcher, fake store in half of the cases) under testing/synctest: arrive (GET, 6% POST) / release of an in-flight upstream exchange with outcome {cacheable ttl 1,2,3,5 | uncacheable | error | nil response | panic} / tick 200 ms..301 s / purge (named or all caches, delete ok or failing) / evict (filler key in the same 1-slot shard) / restart (fresh dispatcher on the same store) / store corruption (missing, truncated in the response / after 8 bytes / 1-15 bytes short inside the trailing time fields, status word 1 or 0, expiry 0, nil response, expired, hit-for-pass, foreign hit) / store read-write fault modes; every history ends by draining the upstream; observation after each op at quiescence = state of every request (parked / in upstream with label / done with label, response id, age) and the decoded store record; non-trivial = history with at least one parked request or one hit; distinct by op sequence"
+	sum.Rule = "one case = one history of 30-45 ops on one cache key through the real cache middleware (server.NewCache over a real size-8 dispatcher, fake store in half of the cases) under testing/synctest: arrive (GET, 6% POST) / release of an in-flight upstream exchange with outcome {cacheable ttl 1,2,3,5 | uncacheable | error | nil response | panic} / tick 200 ms..301 s / purge (named or all caches, delete ok or failing) / purge elsewhere (absent cache name, same key in a neighbouring cache, another key: must leave this key's resident entry and store record alone) / evict (filler key in the same 1-slot shard) / restart (fresh dispatcher on the same store) / store corruption (missing, truncated in the response / after 8 bytes / 1-15 bytes short inside the trailing time fields, status word 1 or 0, expiry 0, nil response, expired, hit-for-pass, foreign hit) / store read-write fault modes; every history ends by draining the upstream; before the histories, two scenarios with a store that cannot be opened (miss, fill, hit, purge, miss must work from memory); observation after each op at quiescence = state of every request (parked / in upstream with label / done with label, response id, age) and the decoded store record; non-trivial = history with at least one parked request or one hit; distinct by op sequence"
 	header := "From Coq Require Import List ZArith.\nImport ListNotations.\nFrom Pike Require Import Model.Sys Corr.SysCorr.\n"
 	w := hx.NewCaseWriter(out, "flight", header, "list fl_case", "check_cases", 6, sum)
 	distinct := hx.NewDistinct()
 	inflight := filepath.Join(out, "inflight.json")
+	storeCannotOpen(sum)
 	for i := 0; i < n; i++ {
 		nops := 30 + rnd.Intn(16)
 		withStore := i%2 == 1
 		term, rep, dist := runCase(t, rnd, i, nops, withStore, inflight)
+		if ivs, ok := rep["impl_violations"].([]map[string]interface{}); ok {
+			for _, iv := range ivs {
+				iv["hit_for_pass"], iv["with_store"], iv["frames"] = rep["hit_for_pass"], rep["with_store"], rep["frames"]
+				sum.ImplViolations = append(sum.ImplViolations, iv)
+			}
+			delete(rep, "impl_violations")
+		}
 		w.Add(term, rep)
 		sum.Evaluations++
 		for k, v := range dist {
